@@ -2,6 +2,7 @@ package props
 
 import (
 	"encoding/json"
+	"fmt"
 	"os"
 	"testing"
 
@@ -34,6 +35,11 @@ func TestProp(t *testing.T) {
 		sc := p.Gen(t)
 		if v := p.RunCase(sc); v != nil {
 			t.Fatalf("VIOLATION-CANDIDATE %s: %s", v.Key, v.Msg)
+		}
+		if kit.TooManyInconclusive {
+			kit.Flush()
+			fmt.Println("INCONCLUSIVE-ABORT: most cases could not be decided")
+			os.Exit(3)
 		}
 	})
 }
